@@ -355,6 +355,9 @@ BASE = {
     "cross_degree": ("cross_outdegree", "cross_indegree"),
     "total_cross_degree": ("cross_degree",),
     "cross_degree_density": ("cross_degree",),
+    "cross_local_clustering": ("cross_degree",),
+    "cross_local_clustering_sparse": ("cross_degree",),
+    "cross_transitivity_sparse": ("cross_degree",),
     "cross_global_clustering": ("cross_local_clustering",),
     "cross_global_clustering_sparse": ("cross_local_clustering_sparse",),
     "cross_average_path_length": ("cross_path_lengths",),
@@ -472,13 +475,19 @@ class Case:
         # ---- classify the failure
         tag = None
         if self.as_array:
-            st2, _, _ = self.evaluate(name, a, b, la, False)
+            st2, val2, _ = self.evaluate(name, a, b, la, False)
             if st2 == "ok":
                 if st.startswith("raises"):
                     ctx.count("array_rejected")      # arrays not accepted
                     self.ok[key] = True
                     return
                 tag = "array-nodes"
+            elif st.startswith("raises") and st2 != st:
+                # arrays rejected AND the list form breaks the definition:
+                # the list form is the event
+                st, val = st2, val2
+                if not st.startswith("raises"):
+                    self.lib[key] = val
         bb = b if arity == 2 else []
         if tag is None and (a != sorted(a) or bb != sorted(bb)):
             st3, _, _ = self.evaluate(name, sorted(a), sorted(b), la, False)
@@ -985,7 +994,7 @@ def exhaustive_graphs(ctx):
             yield f"u{n}:{bits}", gg.nth_undirected(n, bits), False
     r = ctx.rng("spread-u5")
     pick = range(1024) if T else sorted(
-        int(x) for x in r.choice(1024, 56, replace=False))
+        int(x) for x in r.choice(1024, 160, replace=False))
     for bits in pick:
         yield f"u5:{bits}", gg.nth_undirected(5, bits), False
     if T:
@@ -998,7 +1007,7 @@ def exhaustive_graphs(ctx):
             yield f"d{n}:{bits}", gg.nth_directed(n, bits), True
     r = ctx.rng("spread-d4")
     for bits in sorted(int(x) for x in r.choice(
-            4096, 512 if T else 40, replace=False)):
+            4096, 512 if T else 100, replace=False)):
         yield f"d4:{bits}", gg.nth_directed(4, bits), True
     if T:
         r = ctx.rng("spread-d5")
@@ -1075,13 +1084,13 @@ def run(ctx):
             cid = f"{gid}:{k}"
             a, b = order(rng, a0, k), order(rng, b0, k // 2)
             arr = k % 3 == 0
-            if not ctx.want(cid):
-                continue
             # internal measures: twice per first group (sorted / shuffled,
             # list / array alternate with k)
             fk = (tuple(a0), a == sorted(a))
             internal = fk not in seen_first
             seen_first.add(fk)
+            if not ctx.want(cid):
+                continue
             with ctx.guard(60):
                 count_pair(ctx, G, a, b, arr, "exhaustive")
                 battery(ctx, G, a, b, arr, cid, internal=internal)
@@ -1090,8 +1099,8 @@ def run(ctx):
                         "group_pairs": k + 1})
 
     # 2. random networks, random groups; 3. wrappers ------------------------
-    cap = 6000 if ctx.thorough else 420
-    cap_ccn = 1200 if ctx.thorough else 64
+    cap = 6000 if ctx.thorough else 1200
+    cap_ccn = 1600 if ctx.thorough else 200
     k = 0
     while ctx.time_left() > 0 and k < max(cap, cap_ccn):
         k += 1
@@ -1116,11 +1125,11 @@ def run(ctx):
         reps = 3 if G.N <= 12 else 2
         for j in range(reps):
             cid = f"{gid}:{j}"
-            if not ctx.want(cid):
-                continue
             a, b = random_groups(rng, G.N)
             a, b = order(rng, a, j + k), order(rng, b, (j + k) // 2)
             arr = (j + k) % 3 == 0
+            if not ctx.want(cid):
+                continue
             with ctx.guard(120):
                 count_pair(ctx, G, a, b, arr, "random")
                 battery(ctx, G, a, b, arr, cid)
